@@ -1,6 +1,6 @@
 (* Props/C08.v — Query meaning is invariant under spelling; string literals are opaque.
    ONLY statements: each closed by [exact <lemma>] with Print Assumptions beneath. *)
-From RBQL Require Import Base Parser Parser_Proofs.
+From RBQL Require Import Base Parser Parser_Proofs Parser_Combine_Proofs.
 Local Open Scope N_scope.
 
 (* C08_cleanup_invariant. A query text is a list of physical lines (each without LF) joined by LF.
@@ -63,15 +63,31 @@ Proof.
 Qed.
 Print Assumptions C08_literals_nonvacuous.
 
-(* C08_combine_verbatim - NOT PROVED; full statement kept here as the goal:
-     forall segs, wf_segs segs ->
-       (no literal and no code segment of segs contains the text ___RBQL_STRING_LITERAL) ->
-       combine_string_literals (placeholders 0 segs) (literals segs) = render (map tabfix_code segs)
-   (render with TAB -> space in the code segments). Missing: the combinatorics-on-words argument that the sequential
-   str.replace of placeholder k finds exactly the one occurrence of placeholder k (the marker ___RBQL_STRING_LITERAL
-   is unbordered and contains no quote character, decimal numerals are prefix-free before ___). It is validated by the
-   correspondence run (entry 502 against combine_string_literals on every generated query) and its instance on the
-   example is checked below. What IS proved is that the hypothesis cannot be dropped: *)
+(* C08_combine_verbatim. [cv_segs segs] (Parser_Combine_Proofs.v): code and literals alternate (no two code segments
+   in a row), every literal is delimited by quote characters, and neither a code segment nor a literal text contains
+   the marker RBQL_STRING_LITERAL (the placeholder text without its underscores). Then the sequential str.replace of
+   combine_string_literals finds exactly its own placeholder at every step and the result is the original text with
+   the TABs of the code (never of a literal) turned into spaces. The marker hypothesis is forced by the sequential
+   replace: it cannot be dropped (C08_combine_needs_hypothesis below; observation O1). *)
+Theorem C08_combine_verbatim : forall (segs : list seg), cv_segs segs ->
+  combine_string_literals (placeholders 0 segs) (literals segs) = render_fixed segs.
+Proof. exact combine_verbatim. Qed.
+Print Assumptions C08_combine_verbatim.
+
+(* hence: separate, then combine, is the identity up to TAB -> space in the code *)
+Theorem C08_separate_then_combine : forall (segs : list seg), wf_segs segs -> cv_segs segs ->
+  combine_string_literals (fst (separate_string_literals LPy (render segs))) (snd (separate_string_literals LPy (render segs)))
+  = render_fixed segs.
+Proof. exact separate_then_combine. Qed.
+Print Assumptions C08_separate_then_combine.
+
+Example C08_combine_nonvacuous : wf_segs ex_segs /\ cv_segs ex_segs /\
+  combine_string_literals (placeholders 0 ex_segs) (literals ex_segs) = render_fixed ex_segs /\
+  render_fixed ex_segs <> render ex_segs.
+Proof. exact combine_verbatim_example. Qed.
+Print Assumptions C08_combine_nonvacuous.
+
+(* the hypothesis "no literal contains the marker" cannot be dropped: *)
 Example C08_combine_needs_hypothesis :
   wf_segs ex_segs_o1 /\
   combine_string_literals (placeholders 0 ex_segs_o1) (literals ex_segs_o1) <> render ex_segs_o1.
@@ -80,9 +96,3 @@ Proof.
   destruct combine_needs_hypothesis as [_ [E1 E2]]. rewrite E1, E2. vm_compute. discriminate.
 Qed.
 Print Assumptions C08_combine_needs_hypothesis.
-
-Example C08_combine_verbatim_instance :
-  combine_string_literals (placeholders 0 ex_segs) (literals ex_segs) =
-  render (map (fun s => match s with Code c => Code (map tabfix c) | l => l end) ex_segs).
-Proof. vm_compute. reflexivity. Qed.
-Print Assumptions C08_combine_verbatim_instance.
